@@ -12,6 +12,9 @@ func chanKey[C any](ch C) unsafe.Pointer {
 	return *(*unsafe.Pointer)(unsafe.Pointer(&ch))
 }
 
+// ChanKey is the identity under which Config.OnSend reports ch.
+func ChanKey[C any](ch C) unsafe.Pointer { return chanKey(ch) }
+
 func realSendNB[C ~chan V | ~chan<- V, V any](ch C, v V) {
 	select {
 	case ch <- v:
@@ -59,6 +62,18 @@ func Send[C ~chan V | ~chan<- V, V any](ch C, v V) {
 	default:
 		diverge(fmt.Sprintf("send: unexpected completion %d", r.how))
 	}
+	if h := t.sim.cfg.OnSend; h != nil {
+		sent(t, h, key, v, r)
+	}
+}
+
+// sent reports a completed send to the observer.
+func sent(t *task, h func(unsafe.Pointer, any, int64), key unsafe.Pointer, v any, r resume) {
+	step := r.n // howDone: stamped by wake, at the step of whoever took the value
+	if r.how != howDone {
+		step = t.call(request{kind: regStamp}).n
+	}
+	h(key, v, step)
 }
 
 // Recv2 is `v, ok := <-ch`.
@@ -134,6 +149,7 @@ type Select struct {
 	t     *task
 	cases []selCaseReq
 	real  []func()
+	sentv []func() any
 	give  []func(any)
 	take  []func(any)
 	done  []func()
@@ -148,6 +164,9 @@ func NewSelect(n int, hasDefault bool) *Select {
 	if s.t != nil {
 		s.cases = make([]selCaseReq, n)
 		s.real = make([]func(), n)
+		if s.t.sim.cfg.OnSend != nil {
+			s.sentv = make([]func() any, n)
+		}
 		s.give = make([]func(any), n)
 		s.take = make([]func(any), n)
 		s.done = make([]func(), n)
@@ -175,6 +194,9 @@ func SelSend[C ~chan V | ~chan<- V, V any](s *Select, i int, ch C, v V) {
 	s.cases[i] = c
 	s.real[i] = func() { realSendNB(ch, v) }
 	s.give[i] = func(dst any) { *(dst.(*V)) = v }
+	if s.sentv != nil {
+		s.sentv[i] = func() any { return v }
+	}
 }
 
 // RecvCase holds the result of a receive case.
@@ -262,6 +284,9 @@ func (s *Select) Wait() int {
 		}
 	default:
 		diverge(fmt.Sprintf("select: unexpected completion %d", r.how))
+	}
+	if s.sentv != nil && s.sentv[i] != nil {
+		sent(t, t.sim.cfg.OnSend, key, s.sentv[i](), r)
 	}
 	return i
 }
